@@ -53,7 +53,8 @@ def p_blank(x):
         c2 = dc.DebianCopyright.from_text(t2)
     except Exception as e:  # noqa
         return 'raises %s' % type(e).__name__
-    want = [[[n, [[num, ('' if (num - 1) in S else v)] for num, v in ls]] for n, ls in g] for g in g1]
+    Sset = set(S)
+    want = [[[n, [[num, ('' if (num - 1) in Sset else v)] for num, v in ls]] for n, ls in g] for g in g1]
     if g2 != want:
         return 'line-tracking parser: blanking markers %r changes more than their text: %r vs %r' % (S, g2, want)
     if [type(p).__name__ for p in c1.paragraphs] != [type(p).__name__ for p in c2.paragraphs]:
@@ -91,7 +92,17 @@ def run(ctx):
         for S in subsets(rng, el, ctx.n(6, 20)):
             cases.append((text, S, [rng.choice(BLANKS) for _ in S], strong))
     ctx.exhaustive.append('all admissible subsets of the markers for documents with <= 6 eligible markers (capped per document)')
+    # large documents (beyond 4096 lines) with a marker on every second or third line, all of them blanked: whatever
+    # block size a reader uses, a boundary falls on a blanked marker (executable statement only, not handed to the model)
+    from harness.gen import texts as G
+    large = []
+    for n, period, phase in [(9000, 2, 0), (9000, 2, 1), (9000, 3, 0), (9000, 3, 1), (9000, 3, 2), (20000, 2, 0), (20000, 2, 1)]:
+        text = G.big_text(rng, n, period, phase)
+        el = eligible(text.split('\n'))
+        S = [x for i, x in enumerate(el) if i == 0 or x - el[i - 1] > 1]
+        large.append((text, S, [rng.choice(BLANKS[:5]) for _ in S], False))
     fails = ctx.prop('prop:blanked-markers', cases, p_blank)
+    fails += ctx.prop('prop:blanked-markers:large', large, p_blank)
     ctx.stream('prop:blanked-markers')['eligible_markers_histogram'] = markers
     texts = []
     for text, S, blanks, _strong in cases[:ctx.n(4000, 50000)]:
